@@ -13,7 +13,9 @@ package logic
 //@   option prelude=json
 //@   option load=gripql,jsonpath,gdbi
 //@   nopanic
+//@   pure
 //@   requires nonnil: cond != nil
+//@   function det: result <==> condSem(trav, cond)
 //@   let val = pathLookup(trav, cond.Key)
 //@   let c = asJSON(cond.Value)
 //@   let lo = anyat(alist(c), 0)
@@ -41,3 +43,46 @@ package logic
 //@   loop 2 invariant idx: 0 - 1 <= rangeindex && rangeindex < slen(alist(c)) || slen(alist(c)) == 0 && rangeindex == 0 - 1
 //@   loop 3 invariant contains: found <==> (exists j :: 0 <= j && j <= rangeindex && deq(anyat(alist(val), j), c))
 //@   loop 3 invariant idx: 0 - 1 <= rangeindex && rangeindex < slen(alist(val)) || slen(alist(val)) == 0 && rangeindex == 0 - 1
+
+// MatchesHasExpression: and = for all operands, or = for some operand, not =
+// negation, a condition = MatchesCondition, an unset expression = false.
+// hm(trav, s) is the meaning of the has-expression tree rooted at s; it is DEFINED
+// by the axioms def* below (structural recursion over a finite tree), stated at the
+// node under evaluation so that no quantifier over nodes is needed. The wire*
+// axioms are the input model: what protobuf/JSON decoding can produce (payload of a
+// populated oneof wrapper and elements of a repeated field are never nil).
+//@ func MatchesHasExpression
+//@   property C08
+//@   option prelude=json
+//@   option load=gripql,jsonpath,gdbi
+//@   nopanic
+//@   pure
+//@   requires nonnil: stmt != nil
+//@   let andL = ptr(stmt.Expression, "*gripql.HasExpression_And").And.Expressions
+//@   let orL = ptr(stmt.Expression, "*gripql.HasExpression_Or").Or.Expressions
+//@   axiom wireWrap: forall s:*gripql.HasExpression :: s != nil && isAPtr(s.Expression) ==> ref(s.Expression) != 0
+//@   axiom wireCond: forall w:*gripql.HasExpression_Condition :: w != nil ==> w.Condition != nil
+//@   axiom wireAnd: forall w:*gripql.HasExpression_And :: w != nil ==> w.And != nil
+//@   axiom wireOr: forall w:*gripql.HasExpression_Or :: w != nil ==> w.Or != nil
+//@   axiom wireNot: forall w:*gripql.HasExpression_Not :: w != nil ==> w.Not != nil
+//@   axiom wireList: forall l:*gripql.HasExpressionList, j :: l != nil && 0 <= j && j < len(l.Expressions) ==> l.Expressions[j] != nil
+//@   axiom defCond: dyn(stmt.Expression, "*gripql.HasExpression_Condition") ==>
+//@       (hm(trav, stmt) <==> condSem(trav, ptr(stmt.Expression, "*gripql.HasExpression_Condition").Condition))
+//@   axiom defAnd: dyn(stmt.Expression, "*gripql.HasExpression_And") ==>
+//@       (hm(trav, stmt) <==> (forall j :: 0 <= j && j < len(andL) ==> hm(trav, andL[j])))
+//@   axiom defOr: dyn(stmt.Expression, "*gripql.HasExpression_Or") ==>
+//@       (hm(trav, stmt) <==> (exists j :: 0 <= j && j < len(orL) && hm(trav, orL[j])))
+//@   axiom defNot: dyn(stmt.Expression, "*gripql.HasExpression_Not") ==>
+//@       (hm(trav, stmt) <==> !hm(trav, ptr(stmt.Expression, "*gripql.HasExpression_Not").Not))
+//@   axiom defUnset: !dyn(stmt.Expression, "*gripql.HasExpression_Condition") &&
+//@       !dyn(stmt.Expression, "*gripql.HasExpression_And") && !dyn(stmt.Expression, "*gripql.HasExpression_Or") &&
+//@       !dyn(stmt.Expression, "*gripql.HasExpression_Not") ==> !hm(trav, stmt)
+//@   ensures sem: result <==> hm(trav, stmt)
+//@   loop 1 invariant frame: freshonly("SH.Bool")
+//@   loop 1 invariant collect: len(andRes) == rangeindex + 1 && soff(andRes) == 0 && rangeindex < len(andL) && sref(andRes) < alloc &&
+//@       (forall j :: 0 <= j && j <= rangeindex ==> (andRes[j] <==> hm(trav, andL[j])))
+//@   loop 2 invariant scan: forall j :: 0 <= j && j <= rangeindex ==> andRes[j]
+//@   loop 3 invariant frame: freshonly("SH.Bool")
+//@   loop 3 invariant collect: len(orRes) == rangeindex + 1 && soff(orRes) == 0 && rangeindex < len(orL) && sref(orRes) < alloc &&
+//@       (forall j :: 0 <= j && j <= rangeindex ==> (orRes[j] <==> hm(trav, orL[j])))
+//@   loop 4 invariant scan: forall j :: 0 <= j && j <= rangeindex ==> !orRes[j]
